@@ -1186,3 +1186,26 @@ def _passes_closure(fn, call, cl):
 def inlined_calls(e, suffix):
     """Call nodes named `suffix` anywhere in an expression, including inside inlined helper bodies."""
     return [x for x in walk(e) if x[0] == "call" and facts_suffix(x[1], suffix)]
+
+
+def loop_depth(fn, bb):
+    """Number of natural loops (back edge u->h with h dominating u) whose body contains block bb."""
+    depth = 0
+    reach = fn.reachable()
+    for u in reach:
+        for h in fn.succ[u]:
+            if h in reach and fn.dominates(h, u):
+                # body: nodes that reach u without passing h, plus h
+                body = {h, u}
+                st = [u]
+                while st:
+                    x = st.pop()
+                    if x == h:
+                        continue
+                    for pr in fn.pred[x]:
+                        if pr not in body and pr in reach:
+                            body.add(pr)
+                            st.append(pr)
+                if bb in body:
+                    depth += 1
+    return depth
